@@ -241,6 +241,56 @@ def stars(max_lig=6, kind=SMG, with_none=True, all_patterns=True):
     return out
 
 
+@lru_cache(None)
+def stars_extra(kind=SMG):
+    """lone-pair centres with the placeholder at every position of the descriptor (every ordering of (1,2,3,None) x parity),
+    and star skeletons without any descriptor"""
+    out = []
+    els = ["H", "F", "Cl"]
+    for perm in itertools.permutations((1, 2, 3, None)):
+        for p in (1, -1):
+            out.append(star("Tetrahedral", "N", els, ("Tetrahedral", (0, *perm), p), kind))
+    # imine-type planar bond with the placeholder on either end / position
+    atoms = [(0, "C"), (1, "N"), (2, "F"), (3, "H"), (4, "Cl")]
+    bonds = [(0, 1), (0, 2), (0, 3), (1, 4)]
+    for t in ((2, 3, 0, 1, 4, None), (2, 3, 0, 1, None, 4), (3, 2, 0, 1, 4, None), (4, None, 1, 0, 2, 3), (None, 4, 1, 0, 2, 3),
+              (None, 4, 1, 0, 3, 2)):
+        out.append(mk(kind, atoms, bonds, bstereo=[("PlanarBond", t, 0)]))
+    for cls, cel, n in STAR_CLASSES:
+        out.append(star(cls, cel, [LIG[i] for i in range(n)], None, kind))
+        out.append(star(cls, cel, [LIG[0]] * n, None, kind))
+    return out
+
+
+@lru_cache(None)
+def symmetric_reactions(kind=CRG):
+    """role patterns on highly symmetric skeletons that 1-WL colour refinement cannot tell apart: every assignment of
+    two roles to the bonds of C6 / prism / K4 / K3,3 / cube in which all atoms see the same multiset of incident roles"""
+    out = []
+    skel = {"C6": (6, [(i, (i + 1) % 6) for i in range(6)]),
+            "K4": (4, list(itertools.combinations(range(4), 2))),
+            "prism": (6, [(0, 1), (1, 2), (2, 0), (3, 4), (4, 5), (5, 3), (0, 3), (1, 4), (2, 5)]),
+            "K33": (6, [(i, j) for i in range(3) for j in range(3, 6)]),
+            "cube": (8, [(i, j) for i in range(8) for j in range(i + 1, 8) if bin(i ^ j).count("1") == 1])}
+    role_pairs = [(None, "FLEETING"), (None, "FORMED"), ("FORMED", "BROKEN"), ("FLEETING", "BROKEN"), (None, "BROKEN")]
+    for name, (n, bonds) in skel.items():
+        m = len(bonds)
+        for ra, rb in role_pairs:
+            seen = set()
+            for mask in range(1, (1 << m) - 1):
+                roles = [rb if mask >> i & 1 else ra for i in range(m)]
+                inc = {a: [] for a in range(n)}
+                for (x, y), r in zip(bonds, roles):
+                    inc[x].append(str(r))
+                    inc[y].append(str(r))
+                sig = {tuple(sorted(v)) for v in inc.values()}
+                if len(sig) != 1:
+                    continue
+                g = mk(kind, [(i, "C") for i in range(n)], [(x, y, r) for (x, y), r in zip(bonds, roles)])
+                out.append((name, g))
+    return out
+
+
 # ---- two-unit skeletons ---------------------------------------------------------------------------------------
 
 def _th(c, l, p):
@@ -315,7 +365,8 @@ def scrg_universe(size="quick"):
             out.append(mk(SCRG, atoms, bonds, astereo=[d]))
         for combo in combos:
             menu = {"BROKEN": (t_p, t_m), "FORMED": (t_m, t_p), "FLEETING": (sp, t_p)}
-            variants = itertools.product(*[menu[k] for k in combo]) if size != "quick" else [tuple(menu[k][0] for k in combo)]
+            variants = list(itertools.product(*[menu[k] for k in combo])) if size != "quick" else \
+                [tuple(menu[k][0] for k in combo), tuple(menu[k][1] for k in combo)]
             for v in variants:
                 out.append(mk(SCRG, atoms, bonds, achg={0: dict(zip(combo, v))}))
     # (c) bond stereo changes on an ethene skeleton
@@ -329,7 +380,8 @@ def scrg_universe(size="quick"):
     out.append(mk(SCRG, atoms, bonds, bstereo=[pe]))
     for combo in combos:
         menu = {"BROKEN": (pz, ap), "FORMED": (pe, am), "FLEETING": (ap, pz)}
-        variants = itertools.product(*[menu[k] for k in combo]) if size != "quick" else [tuple(menu[k][0] for k in combo)]
+        variants = list(itertools.product(*[menu[k] for k in combo])) if size != "quick" else \
+            [tuple(menu[k][0] for k in combo), tuple(menu[k][1] for k in combo)]
         for v in variants:
             out.append(mk(SCRG, atoms, bonds, bchg={(0, 1): dict(zip(combo, v))}))
     # (d) atom + bond change together, with a formed bond elsewhere
@@ -339,6 +391,24 @@ def scrg_universe(size="quick"):
                   achg={1: {"FORMED": ("Tetrahedral", (1, 0, 4, 5, 6), 1)}}))
     out.append(mk(SCRG, atoms2, bonds2, bchg={(0, 1): {"BROKEN": pz}},
                   achg={1: {"FORMED": ("Tetrahedral", (1, 0, 4, 5, 6), -1)}, 0: {"FORMED": ("Tetrahedral", (0, 1, 2, 3, None), 1)}}))
+    # (e) several centres / several bonds with stereo changes of different kinds: butadiene-like chain 0=1-2=3 with
+    #     substituents 4,5 on 0 ; 6 on 1 ; 7 on 2 ; 8,9 on 3
+    atoms3 = [(0, "C"), (1, "C"), (2, "C"), (3, "C"), (4, "F"), (5, "H"), (6, "H"), (7, "Cl"), (8, "Br"), (9, "H")]
+    bonds3 = [(0, 1), (1, 2), (2, 3), (0, 4), (0, 5), (1, 6), (2, 7), (3, 8), (3, 9)]
+    b01z = ("PlanarBond", (4, 5, 0, 1, 2, 6), 0)
+    b01e = ("PlanarBond", (4, 5, 0, 1, 6, 2), 0)
+    b23z = ("PlanarBond", (1, 7, 2, 3, 8, 9), 0)
+    b23e = ("PlanarBond", (1, 7, 2, 3, 9, 8), 0)
+    b12 = ("AtropBond", (0, 6, 1, 2, 3, 7), 1)
+    out.append(mk(SCRG, atoms3, bonds3, bchg={(0, 1): {"BROKEN": b01z}, (2, 3): {"FORMED": b23e}}))
+    out.append(mk(SCRG, atoms3, bonds3, bchg={(0, 1): {"BROKEN": b01z, "FORMED": b01e}, (2, 3): {"BROKEN": b23z, "FORMED": b23e},
+                                              (1, 2): {"FLEETING": b12}}))
+    out.append(mk(SCRG, atoms3, bonds3, bstereo=[b01z], bchg={(2, 3): {"FLEETING": b23z}, (1, 2): {"FORMED": b12}}))
+    ta = ("Tetrahedral", (0, 1, 4, 5, None), 1)
+    tb = ("Tetrahedral", (3, 2, 8, 9, None), -1)
+    out.append(mk(SCRG, atoms3, bonds3, achg={0: {"FORMED": ta}, 3: {"BROKEN": tb}}))
+    out.append(mk(SCRG, atoms3, bonds3, achg={0: {"FLEETING": ta}, 3: {"FLEETING": tb, "FORMED": RS.mirror(tb)}},
+                  bchg={(1, 2): {"BROKEN": b12}}))
     return out
 
 
